@@ -611,7 +611,7 @@ class Parser:
                         raise ModelCompileError("Expected '}' in interpolation.", t.line)
                     parts.append(e)
             if len(parts) > 255:
-                raise ModelUnsupported("interpolation with more than 255 parts")
+                raise ModelCompileError("Cannot have more than 255 parts in an interpolated string.", None)
             return Node("interp", t.line, parts)
         if k == "id":
             return self.named(t, can_assign)
